@@ -8,6 +8,7 @@ import traceback
 from . import common, gen_ref, pipe
 
 KF_EXC = 'exception-context-split-across-nodes'
+KF_NFSEC = 'c09-startnf-met-removed-product-before-sec'
 
 
 def worker(job):
@@ -17,11 +18,28 @@ def worker(job):
     case = gen_ref.Case(gen_ref.work_dir('c09'))
     try:
         with gen_ref.quiet():
-            gen_ref.make_reference(case, seed, rng.choice([1, 2, 3]))
+            # half of the references: a Sec planted a few codons behind the start codon (sometimes two,
+            # sometimes with a lysine in front), so that Sec termination meets the start node, the
+            # Met-removed twin and the length limits
+            gen_ref.make_reference(case, seed, rng.choice([1, 2, 3]),
+                                   sec_near_start=rng.choice([0.0, 0.6, 1.0]))
             genome, anno, proteome = gen_ref.load_reference(case)
         kw = dict(cleavage_rule='trypsin', cleavage_exception=rng.choice([None, None, 'auto']),
                   miscleavage=rng.choice([0, 1, 2, 2, 3]), min_mw=rng.choice([300., 500., 800.]),
                   min_length=rng.choice([5, 7, 9]), max_length=rng.choice([15, 25, 40]))
+        # a maximum length right at the distance of the first Sec from the start codon: the
+        # Sec-terminated N-terminal product then fits only with / without its initiator Met
+        ks = []
+        for m_ in anno.transcripts.values():
+            if m_.is_protein_coding:
+                ts_ = m_.get_transcript_sequence(genome[m_.transcript.chrom])
+                if ts_.orf and ts_.selenocysteine:
+                    k_ = (int(ts_.selenocysteine[0].start) - int(ts_.orf.start)) // 3
+                    if 6 <= k_ <= 41:
+                        ks.append(k_)
+        if ks and rng.random() < 0.6:
+            kw['max_length'] = max(kw['min_length'], rng.choice(ks) + rng.choice([-2, -1, -1, 0, 1]))
+            out['stats']['max_length_at_first_sec'] = 1
         flags = rng.choice([(True, True), (True, False), (False, True)])
         args = gen_ref.call_variant_args(case, case.dir / 'alt.fasta', **kw)
         args.command = 'callAltTranslation'
@@ -69,6 +87,21 @@ def worker(job):
             lines.append(ln(exc))
             if exc:
                 lines_b.append(ln(None))
+                # plain products of the transcript when the exception is ignored
+                out.setdefault('lines_p', []).append('\t'.join(
+                    ['S', 'ref', str(ts.seq), '1', str(int(ts.orf.start)), str(int(ts.orf.end)),
+                     '1' if m.is_cds_start_nf() else '0', '1' if m.is_mrna_end_nf() else '0',
+                     ','.join(map(str, sec)), kw['cleavage_rule'], '-', str(kw['miscleavage']),
+                     str(pipe.mw_int(kw['min_mw'])), str(kw['min_length']), str(kw['max_length']), '0', '0']))
+            if m.is_cds_start_nf() and sec:
+                from Bio.Seq import Seq as _Seq
+                cds = str(ts.seq)[int(ts.orf.start):]
+                aa = list(str(_Seq(cds[:len(cds) // 3 * 3]).translate()))
+                for s0 in sec:
+                    k0 = (s0 - int(ts.orf.start)) // 3
+                    if 0 <= k0 < len(aa):
+                        aa[k0] = 'U'
+                out.setdefault('nf_proteins', []).append(''.join(aa))
         out.update(lines=lines, lines_b=lines_b, txs=txs, real=sorted(fasta.keys()))
         out['stats']['runs'] = 1
         out['stats']['real_peptides'] = len(fasta)
@@ -129,25 +162,43 @@ def run(ctx: common.Ctx):
         for ln in r['lines_b']:
             lines.append(ln)
             idx.append((i, 'B'))
+        for ln in r.get('lines_p', []):
+            lines.append(ln)
+            idx.append((i, 'P'))
     outs = ctx.lean(lines)
     if outs is None:
         ctx.add_broken('correspondence', 'alttrans', 'native driver unavailable')
         outs = [''] * len(lines)
     spec = [set() for _ in done]
     spec_b = [set() for _ in done]
+    spec_p = [set() for _ in done]
     for (i, which), o in zip(idx, outs):
         if o:
-            (spec if which == 'A' else spec_b)[i] |= set(o.split(','))
-    for r, S, SB in zip(done, spec, spec_b):
+            {'A': spec, 'B': spec_b, 'P': spec_p}[which][i] |= set(o.split(','))
+    for r, S, SB, PB in zip(done, spec, spec_b, spec_p):
         real = set(r['real'])
         ctx.evaluated('alttrans', str(r['seed']), bool(real or S),
                       dict(r['desc'], transcripts=r['txs'], n_expected=len(S), n_reported=len(real)))
         if real == S or not ctx.driver_ok:
             continue
-        if r['lines_b'] and not ((S & SB) - real) and not (real - (S | SB)):
+        # open finding: the graph never applies the exception (its NAME is used as the regex), so the
+        # output is the definition computed WITHOUT the exception, or lies between the two readings
+        # (the graph knows no 'plain product' either: what it yields without the exception is only
+        # reduced by the canonical pool, which DOES honour the exception — hence `| PB`)
+        if r['lines_b'] and (real == SB or (not ((S & SB) - real) and not (real - (S | SB | PB)))):
             ctx.add_violation('callAltTranslation: cleavage-exception context split across graph nodes: '
                               f'missing {sorted(S - real)[:3]}, unexpected {sorted(real - S)[:3]}',
                               dict(r['desc'], transcripts=r['txs']), finding_key=KF_EXC)
+            continue
+        # open finding: for a cds_start_NF transcript whose translation starts with M, the Met-removed
+        # twin of the FIRST product is reported with a SECT event when that product ends right in
+        # front of a Sec (it is a plain product's twin, not something only Sec termination yields)
+        unexpected = real - S
+        if not (S - real) and unexpected and all(
+                any(pr.startswith('M' + q + 'U') for pr in r.get('nf_proteins', [])) for q in unexpected):
+            ctx.add_violation('callAltTranslation: Met-removed twin of the first product of a cds_start_NF '
+                              f'transcript reported as Sec-terminated form: {sorted(unexpected)[:3]}',
+                              dict(r['desc'], transcripts=r['txs']), finding_key=KF_NFSEC)
             continue
         ctx.add_violation(
             f'callAltTranslation output differs from the definitional alt-translation digest: missing '
